@@ -190,4 +190,114 @@ theorem roundTo_spec (p : ℕ) (emin : ℤ) (x : Dy) (hm : x.m ≠ 0) :
       · intro _; exact Int.natCast_nonneg _
       · intro h5; first | exact absurd h5 hneg | exact h5.elim
 
+theorem val_of_m_zero (x : Dy) (h : x.m = 0) : x.val = 0 := (m_zero_iff x).mp h
+
+theorem roundTo_val_zero (p : ℕ) (emin : ℤ) (x : Dy) (hm : x.m = 0) : (roundTo p emin x).val = 0 := by
+  rw [roundTo_zero p emin x hm]; simp [val]
+
+/-- `roundTo` commutes with negation (structurally) -/
+theorem roundTo_neg (p : ℕ) (emin : ℤ) (x : Dy) : roundTo p emin (neg x) = neg (roundTo p emin x) := by
+  by_cases hm : x.m = 0
+  · rw [roundTo_zero p emin x hm, roundTo_zero p emin (neg x) (by simp [neg, hm])]; rfl
+  · have hm' : (neg x).m ≠ 0 := by simp [neg, hm]
+    have ht : tExp p emin (neg x) = tExp p emin x := by simp [tExp, neg]
+    rw [roundTo_unfold p emin x hm, roundTo_unfold p emin (neg x) hm', ht]
+    have he : (neg x).e = x.e := rfl
+    have hna : (neg x).m.natAbs = x.m.natAbs := by simp [neg]
+    rw [he, hna]
+    by_cases h : tExp p emin x ≤ x.e
+    · rw [if_pos h, if_pos h]
+    · rw [if_neg h, if_neg h]
+      have hnm : (neg x).m = - x.m := rfl
+      rw [hnm]
+      unfold neg
+      by_cases h1 : x.m < 0
+      · have h2 : ¬ (-x.m < 0) := by omega
+        rw [if_pos h1, if_neg h2, Int.neg_neg]
+      · have h2 : -x.m < 0 := by omega
+        rw [if_neg h1, if_pos h2]
+
+/-- (b) **half-ulp bound**: `|rnd x − x| ≤ 2^(t−1)`, `t` the exponent of the last kept bit -/
+theorem roundTo_halfulp (p : ℕ) (emin : ℤ) (x : Dy) (hm : x.m ≠ 0) :
+    |(roundTo p emin x).val - x.val| ≤ (2:ℚ) ^ (tExp p emin x - 1) := by
+  obtain ⟨k, _, h2, _⟩ := roundTo_spec p emin x hm
+  have : (2:ℚ) ^ (tExp p emin x) = (2:ℚ) ^ (tExp p emin x - 1) * 2 := by
+    have := two_zpow_split (tExp p emin x - 1) 1
+    rw [show tExp p emin x - 1 + 1 = tExp p emin x by ring] at this
+    rw [this]; norm_num
+  linarith
+
+/-! ## binade of a dyadic: `2^(bexp−1) ≤ |x| < 2^bexp` -/
+
+/-- binade exponent `e + bitlength` -/
+def bexp (x : Dy) : ℤ := x.e + (blen x.m.natAbs : ℤ)
+
+theorem tExp_eq (p : ℕ) (emin : ℤ) (x : Dy) : tExp p emin x = max (bexp x - p) emin := rfl
+
+theorem abs_val (x : Dy) : |x.val| = (x.m.natAbs : ℚ) * (2:ℚ) ^ x.e := by
+  unfold val
+  rw [abs_mul, abs_of_pos (two_zpow_pos x.e)]
+  congr 1
+  rw [← Int.cast_abs, Int.abs_eq_natAbs]; simp
+
+theorem val_binade (x : Dy) (hm : x.m ≠ 0) :
+    (2:ℚ) ^ (bexp x - 1) ≤ |x.val| ∧ |x.val| < (2:ℚ) ^ bexp x := by
+  have ha : x.m.natAbs ≠ 0 := by omega
+  obtain ⟨h1, h2, h3⟩ := blen_bounds x.m.natAbs ha
+  rw [abs_val]
+  have hep := two_zpow_pos x.e
+  unfold bexp
+  constructor
+  · have : (2:ℚ) ^ (x.e + (blen x.m.natAbs : ℤ) - 1) = (2:ℚ) ^ (blen x.m.natAbs - 1 : ℕ) * (2:ℚ) ^ x.e := by
+      rw [← zpow_natCast, ← two_zpow_split]; congr 1
+      push_cast [h3]; ring
+    rw [this]
+    have h1q : ((2:ℚ) ^ (blen x.m.natAbs - 1 : ℕ)) ≤ (x.m.natAbs : ℚ) := by exact_mod_cast h1
+    exact mul_le_mul_of_nonneg_right h1q hep.le
+  · have : (2:ℚ) ^ (x.e + (blen x.m.natAbs : ℤ)) = (2:ℚ) ^ (blen x.m.natAbs : ℕ) * (2:ℚ) ^ x.e := by
+      rw [← zpow_natCast, ← two_zpow_split]; congr 1; ring
+    rw [this]
+    have h2q : (x.m.natAbs : ℚ) < ((2:ℚ) ^ (blen x.m.natAbs : ℕ)) := by exact_mod_cast h2
+    exact mul_lt_mul_of_pos_right h2q hep
+
+theorem two_zpow_le {a b : ℤ} (h : a ≤ b) : (2:ℚ) ^ a ≤ (2:ℚ) ^ b :=
+  zpow_le_zpow_right₀ (by norm_num) h
+theorem two_zpow_lt_iff {a b : ℤ} : (2:ℚ) ^ a < (2:ℚ) ^ b ↔ a < b :=
+  zpow_lt_zpow_iff_right₀ (by norm_num)
+
+/-- `|x| < 2^n → bexp x ≤ n` -/
+theorem bexp_le_of_lt (x : Dy) (hm : x.m ≠ 0) (n : ℤ) (h : |x.val| < (2:ℚ) ^ n) : bexp x ≤ n := by
+  have := (val_binade x hm).1
+  have h2 : (2:ℚ) ^ (bexp x - 1) < (2:ℚ) ^ n := lt_of_le_of_lt this h
+  have := two_zpow_lt_iff.mp h2
+  omega
+
+/-- `2^n ≤ |x| → n < bexp x` -/
+theorem lt_bexp_of_le (x : Dy) (hm : x.m ≠ 0) (n : ℤ) (h : (2:ℚ) ^ n ≤ |x.val|) : n < bexp x := by
+  have := (val_binade x hm).2
+  exact two_zpow_lt_iff.mp (lt_of_le_of_lt h this)
+
+/-- (c) **relative error**, generic precision: without subnormal clamping, `|rnd x − x| ≤ |x|·2^(−p)` -/
+theorem roundTo_relerr (p : ℕ) (emin : ℤ) (x : Dy) (hn : emin ≤ bexp x - p) :
+    |(roundTo p emin x).val - x.val| ≤ |x.val| * (2:ℚ) ^ (-(p:ℤ)) := by
+  by_cases hm : x.m = 0
+  · rw [roundTo_val_zero p emin x hm, val_of_m_zero x hm]; simp
+  · have h1 := roundTo_halfulp p emin x hm
+    have ht : tExp p emin x = bexp x - p := by rw [tExp_eq]; omega
+    rw [ht] at h1
+    have h2 := (val_binade x hm).1
+    have : (2:ℚ) ^ (bexp x - p - 1) = (2:ℚ) ^ (bexp x - 1) * (2:ℚ) ^ (-(p:ℤ)) := by
+      rw [← two_zpow_split]; congr 1; ring
+    rw [this] at h1
+    have hp := two_zpow_pos (-(p:ℤ))
+    calc _ ≤ (2:ℚ) ^ (bexp x - 1) * (2:ℚ) ^ (-(p:ℤ)) := h1
+      _ ≤ |x.val| * (2:ℚ) ^ (-(p:ℤ)) := mul_le_mul_of_nonneg_right h2 hp.le
+
+/-- (c) binary64: if `x` is in the normal range (`2^(−1022) ≤ |x|`, i.e. `bexp x ≥ −1021`) then
+    `|round53 x − x| ≤ |x|·2^(−53)` -/
+theorem round53_relerr (x : Dy) (hn : -1021 ≤ bexp x) :
+    |(round53 x).val - x.val| ≤ |x.val| * (2:ℚ) ^ (-(53:ℤ)) := by
+  have := roundTo_relerr 53 (-1074) x (by push_cast; omega)
+  exact this
+
 end GeoVerif.Dy
